@@ -23,7 +23,7 @@ ASSUMPTIONS = ["Recipe._rounding_noise (the library's own bound on float roundin
                "instruction-text helpers are replaced by non-forking summaries (subject of C19)"]
 EXPECT_OUTCOMES = ['ok', 'raised']
 
-SCENARIOS = ['ctor', 'transfer:c2c', 'transfer:slice2c', 'transfer:plate2c', 'remove', 'dilute', 'fill_to',
+SCENARIOS = ['ctor', 'container:observers', 'transfer:c2c', 'transfer:slice2c', 'transfer:plate2c', 'remove', 'dilute', 'fill_to',
              'create_solution:pure', 'create_solution:container', 'create_solution_from:pure',
              'create_solution_from:container', 'plate:c2slice', 'plate:c2plate', 'plate:slice2slice', 'plate:well2slice',
              'plate:slice2well', 'plate:same', 'plate:remove', 'plate:fill_to', 'slice:remove', 'slice:fill_to',
@@ -142,7 +142,16 @@ def h_scenario(h):
     h.outcome = 'ok'
     q = h.real('q', 0, 10**5)
     try:
-        if sc == 'ctor':
+        if sc == 'container:observers':
+            # every query of a container, also about substances it does not hold, in several units
+            c = W.add('container', mk_container(h, lib, 'c', ['water', 'NaCl'], lo=Fr(1, 100)))
+            lip = lib['lipase']
+            for s_ in (water, salt, dmso, lip):
+                for u_ in (('M', 'g/L', 'm', 'mol/mol', '%w/w') if s_ is not lip else ('U/mL', 'U/g')):
+                    c.get_concentration(s_, u_)
+            c.get_volume(); c.get_volume('mL'); c.has_liquid(); c.get_substances(); repr(c); hash(c)
+            _ = c == mk_container(h, lib, 'other', ['water'], lo=Fr(1, 100))
+        elif sc == 'ctor':
             cap = h.real('cap', 1, 10**6)
             spec = W.add('initial_contents', [(water, f"{q} uL"), (salt, '1 mg')])
             results = [C('c', f"{cap} uL", spec)]
@@ -214,7 +223,8 @@ def h_scenario(h):
                 sl = W.add('slice', P[1, :])
                 P.get_volumes(); P.get_volumes(unit='mL'); P.get_volumes(substance=water); P.get_moles(salt)
                 P.get_volume(); P.get_substances(); sl.get_volumes(); sl.get_moles([salt, water]); sl.get_substances()
-                P.wells[0, 0].get_concentration(salt); P.wells[0, 0].get_volume('mL'); P.wells[0, 0].has_liquid()
+                P.wells[0, 0].get_concentration(salt); P.wells[0, 0].get_concentration(dmso, 'g/L'); P.wells[0, 0].get_volume('mL'); P.wells[0, 0].has_liquid()
+                P.get_volumes(substance=[dmso, water]); P.get_moles([dmso, salt]); sl.get_volumes(substance=dmso)
                 P.wells[0, 0].get_substances()
         elif sc.startswith('recipe:'):
             cap = h.real('cap', 10, 10**5)
